@@ -138,6 +138,12 @@ pub trait Case {
     fn n_borrows(_x: &Self::T) -> usize {
         0
     }
+    /// Bytes an ε-copy deserialization of `x` may allocate: the deep-copy
+    /// skeleton and the fields that are by design fully copied — never a
+    /// function of the lengths of the borrowed sequences.
+    fn eps_alloc_bytes(_x: &Self::T) -> usize {
+        0
+    }
 }
 
 #[inline(always)]
@@ -256,6 +262,37 @@ pub fn eps_borrows<C: Case, const PRE: usize, const N: usize, const S: usize>() 
             core::mem::forget(er);
             assert!(false, "C03: eps deserialization of an aligned buffer succeeds");
         }
+    }
+}
+
+/// C03 (allocation sub-claim): the bytes allocated during ε-copy
+/// deserialization equal the skeleton/full-copied-field amount the case
+/// prescribes, whatever the borrowed lengths are.
+pub fn eps_alloc<C: Case, const PRE: usize, const N: usize, const S: usize>() {
+    let x = C::make(S);
+    let mut s = Sink::<N>::new();
+    let n;
+    {
+        let mut w = WriterWithPos::new(&mut s);
+        prefix::<PRE>(&mut w);
+        let r = SerializeInner::_serialize_inner(&x, &mut w);
+        assert!(r.is_ok(), "C03: serialization succeeds");
+        n = w.pos();
+    }
+    let mut al = Al::<N>::zero();
+    al.0 = s.buf;
+    let expect = C::eps_alloc_bytes(&x);
+    let mut sl = SliceWithPos { data: &al.0[PRE..n], pos: PRE };
+    alloc_reset();
+    let e = <C::T>::_deserialize_eps_inner(&mut sl);
+    let got = alloc_bytes();
+    match e {
+        Ok(e) => {
+            crate::cover!(true, "eps Ok reached");
+            assert!(got == expect, "C03: memory allocated by eps deserialization depends on borrowed lengths / exceeds the skeleton and fully copied fields");
+            core::mem::forget(e);
+        }
+        Err(er) => { core::mem::forget(er); assert!(false, "C03: eps deserialization of an aligned buffer succeeds"); }
     }
 }
 
